@@ -286,34 +286,41 @@ def span_close_bookkeeping(F, R):
     # (the sweep may live in the routine that drains the notifications or in a sibling method of the collector)
     sweeps = [(cb, s, t) for cb in F.crate_bodies() if (cb.impl or {}).get("self_adt") == "tracing::Collector" and cb.kind in ("Fn", "AssocFn")
               for s, t in cb.calls(lambda t: callee_is(t, r"HashMap(::<.*>)?::retain$"))]
-    if len(sweeps) != 1:
-        raise Unverifiable(f"sweep of the span entries (`retain`) in tracing::Collector: {len(sweeps)}")
-    cl = A.closure_of_operand(F, sweeps[0][0], sweeps[0][2]["args"][1])
-    if cl is None:
-        raise Unverifiable("predicate of the span-entry sweep")
-    V = ("arg", 3 if cl.kind == "Closure" else 2)     # (key, value): a closure has its environment in front
-    srows = D.Deep(F, cl, max_paths=400).run()
-    if not srows:
-        raise Unverifiable("span-entry sweep: empty table")
-    def noop_write(p, e):
-        """storing `None` into an Option the row learned to be `None` already (`callbacks.take()` on an empty entry) changes nothing"""
-        return D.is_variant(e[2], "std::option::Option", "None") and any(a == ("discr", e[1]) and o == "None" for a, o in p.conds)
-    touched = lambda p: [e for e in p.effects if (e[0] == "write" and D.mentions(e[1], lambda y: y == V) and not noop_write(p, e)) or
-                         (e[0] == "call" and re.search(r"Sender.*::send$|mem::(take|replace)$|Option::<.*>::take$|Vec::<.*>::(clear|drain|pop)$", e[1]) and D.mentions(e[2], lambda y: y == V))]
-    closed = lambda p: any(o is True and a[0] != "discr" and D.mentions(a, lambda y: y == V) and not (isinstance(a, tuple) and a[0] in ("call", "bin")) for a, o in p.conds)
+    if len(sweeps) < 1:
+        raise Unverifiable("sweep of the span entries (`retain`) in tracing::Collector: 0")
     n_keep = n_rm = 0
-    for p in srows:
-        conds = " ∧ ".join(f"{D.fmt(cl, a)[:50]}={o}" for a, o in p.conds) or "always"
-        if p.ret == ("const", True) and not p.cut:
-            n_keep += 1
-            R.check(not touched(p), "sweep/kept-entry-untouched", cl, "an entry that is kept is not modified",
-                    f"[{conds}] the sweep keeps the entry but has taken its waiters / modified it: a waiter registered before its span closed is dropped "
-                    f"(un-notified) and the step's result overtakes the logs of its span")
-        else:
-            n_rm += 1
-            R.check(closed(p), "sweep/removed-only-when-closed", cl, "an entry is removed / its waiters notified only after `closed` was learned true",
-                    f"[{conds}] the sweep notifies the waiters of / removes an entry whose span has not been reported closed")
-    R.check(n_keep >= 1 and n_rm >= 1, "sweep/table", cl, f"{n_keep} keeping rows, {n_rm} removing rows", f"sweep table incomplete: keep {n_keep}, remove {n_rm}")
+    for sw_body, sw_site, sw_t in sweeps:
+        cl = A.closure_of_operand(F, sw_body, sw_t["args"][1])
+        if cl is None:
+            raise Unverifiable("predicate of the span-entry sweep")
+        V = ("arg", 3 if cl.kind == "Closure" else 2)     # (key, value): a closure has its environment in front
+        srows = D.Deep(F, cl, max_paths=400).run()
+        if not srows:
+            raise Unverifiable("span-entry sweep: empty table")
+
+        def noop_write(p, e):
+            """storing `None` into an Option the row learned to be `None` already (`callbacks.take()` on an empty entry) changes nothing"""
+            return D.is_variant(e[2], "std::option::Option", "None") and any(a == ("discr", e[1]) and o == "None" for a, o in p.conds)
+        touched = lambda p: [e for e in p.effects if (e[0] == "write" and D.mentions(e[1], lambda y: y == V) and not noop_write(p, e)) or
+                             (e[0] == "call" and re.search(r"Sender.*::send$|mem::(take|replace)$|Option::<.*>::take$|Vec::<.*>::(clear|drain|pop)$", e[1]) and D.mentions(e[2], lambda y: y == V))]
+        closed = lambda p: any(o is True and a[0] != "discr" and D.mentions(a, lambda y: y == V) and not (isinstance(a, tuple) and a[0] in ("call", "bin")) for a, o in p.conds)
+        waited = lambda p: any(a[0] == "discr" and o == "Some" and D.mentions(a, lambda y: y == V) for a, o in p.conds)
+        where = f"{sw_body.short.rsplit('::', 1)[-1]}"
+        for p in srows:
+            conds = " ∧ ".join(f"{D.fmt(cl, a)[:50]}={o}" for a, o in p.conds) or "always"
+            if p.ret == ("const", True) and not p.cut:
+                n_keep += 1
+                R.check(not touched(p), f"sweep/kept-entry-untouched/{where}", cl, "an entry that is kept is not modified",
+                        f"[{conds}] the sweep keeps the entry but has taken its waiters / modified it: a waiter registered before its span closed is dropped "
+                        f"(un-notified) and the step's result overtakes the logs of its span")
+            else:
+                n_rm += 1
+                R.check(closed(p), f"sweep/removed-only-when-closed/{where}", cl, "an entry is removed / its waiters notified only after `closed` was learned true",
+                        f"[{conds}] the sweep notifies the waiters of / removes an entry whose span has not been reported closed")
+                R.check(waited(p), f"sweep/removed-only-with-waiters/{where}", cl, "an entry is removed only together with notifying its waiters",
+                        f"[{conds}] the sweep removes an entry nobody waits for yet: if its span is already closed the notification is lost and the waiter that "
+                        f"subscribes next (a step's / scenario's `wait_for_span_close`) never resumes — the run hangs")
+    R.check(n_keep >= 1 and n_rm >= 1, "sweep/table", b, f"{n_keep} keeping rows, {n_rm} removing rows", f"sweep table incomplete: keep {n_keep}, remove {n_rm}")
 
 
 def _dominated_or_guarded(b, a, c):
